@@ -135,6 +135,18 @@ def run(ctx):
                f'{c.name} defines {falsy}: an instance can be falsy, and query_traversal keeps the ORIGINAL child when the replacement returned for it is falsy '
                f'(`... or node` at line {truthy_sites[0].lineno if truthy_sites else "?"}): a callback\'s replacement by such a node (an empty {c.name}) is silently dropped',
                file=c.file, line=c.node.lineno if hasattr(c, 'node') else None, witness='fill_query_params("select * from t where a in ?", [[]])')
+    # -- elements are visited one after the other, not component by component ------------------------------------------------------------------------
+    for b in w.branches:
+        by_field = {}
+        for s_ in b.sites:
+            if s_.projection is not None:
+                by_field.setdefault(s_.field, []).append(s_)
+        for fld, ss in by_field.items():
+            ctx.ob('C13.visit-order', f'{"/".join(b.classes)}.{fld}:element-wise', len(ss) < 2,
+                   f'{"/".join(b.classes)}.{fld}: the components {[x.projection for x in ss]} of the elements are visited in separate passes over the field (all first '
+                   f'components, then all second ones); the printer writes the elements one after the other (WHEN c1 THEN r1 WHEN c2 THEN r2), so the visiting order is '
+                   f'not the textual order: positional placeholders are bound to the wrong places', file=w.file, line=ss[0].call.lineno,
+                   witness='select case when a < ? then ? when a < ? then ? end from t')
     # -- callback-first ---------------------------------------------------------------------------
     cb_calls = [n for n in ast.walk(w.fn) if isinstance(n, ast.Call) and isinstance(n.func, ast.Name) and n.func.id == w.cb]
     ok = False
